@@ -130,13 +130,16 @@ class Scanner:
 
     def scan_grammar_doc_inner(self) -> StateFn | None:
         if self.peek() in (" ", "\t"):
+            # One space or tab separates the marker from the text.
             self.next()
+            self.start = self.pos
 
-        if value := self.scan_until(RE_NEWLINE):
-            self.emit(TokenKind.COMMENT_TEXT, value)
-        else:
-            # Empty comment text
-            self.emit(TokenKind.COMMENT_TEXT, "")
+        value = self.scan_until(RE_NEWLINE)
+        if value is None:
+            # The last line of the grammar, without a line break.
+            self.pos = len(self.grammar)
+            value = self.grammar[self.start :]
+        self.emit(TokenKind.COMMENT_TEXT, value)
 
         return self.scan_grammar
 
@@ -189,13 +192,16 @@ class Scanner:
 
     def scan_rule_doc_inner(self) -> StateFn | None:
         if self.peek() in (" ", "\t"):
+            # One space or tab separates the marker from the text.
             self.next()
+            self.start = self.pos
 
-        if value := self.scan_until(RE_NEWLINE):
-            self.emit(TokenKind.COMMENT_TEXT, value)
-        else:
-            # Empty comment text
-            self.emit(TokenKind.COMMENT_TEXT, "")
+        value = self.scan_until(RE_NEWLINE)
+        if value is None:
+            # The last line of the grammar, without a line break.
+            self.pos = len(self.grammar)
+            value = self.grammar[self.start :]
+        self.emit(TokenKind.COMMENT_TEXT, value)
 
         return self.scan_grammar_rule
 
